@@ -50,7 +50,8 @@ Outcome runDeck(const std::string& text, std::string& stage, bool lenient = fals
         // file) is turned into an exception so that the run can continue; see DESIGN.md C20
         if (!lenient) ctx.update(ParseContext::PARSE_MISSING_INCLUDE, InputErrorAction::THROW_EXCEPTION);
         ErrorGuard errors;
-        Deck deck = parser.parseString(text, ctx, errors);
+        Deck deck = text.rfind("@PARSEFILE ", 0) == 0 ? parser.parseFile(text.substr(11), ctx, errors)
+                                                       : parser.parseString(text, ctx, errors);
         errors.clear();
         stage = "eclipsestate";
         EclipseState es(deck);
@@ -210,11 +211,18 @@ int main(int argc, char** argv) {
         if (a == "--only" && i + 1 < argc) only = argv[++i];
         if (a == "--replay" && i + 2 < argc) { replayFile = argv[++i]; replayKind = argv[++i]; }
     }
+#ifdef VERIF_ASAN
+    only = "decks";
+#endif
     fs::create_directories(g_outdir + "/tmp");
     std::signal(SIGALRM, onAlarm);
     {   // a machine with finite memory: a header announcing 10^9 elements must end in
         // std::bad_alloc (an exception), not in minutes of page faults
+#ifndef VERIF_ASAN
         struct rlimit rl; rl.rlim_cur = rl.rlim_max = 4ull << 30; setrlimit(RLIMIT_AS, &rl);
+#endif
+        // (the AddressSanitizer build reserves terabytes of shadow memory: no address-space limit
+        // there; it runs the deck part only, where no input can ask for gigabytes)
     }
     OpmLog::removeAllBackends();
     vh::Rng rng(seed);
@@ -272,6 +280,30 @@ int main(int argc, char** argv) {
                 fixedDecks.push_back(std::string(kw) + tail);
                 fixedDecks.push_back("RUNSPEC\nDIMENS\n 2 2 1 /\nGRID\n" + std::string(kw) + tail + "PORO\n 4*0.3 /\nSCHEDULE\n" + std::string(kw) + tail);
             }
+        // nested INCLUDE chains of tiny files (the text of every loaded file must stay alive and
+        // in place while files further down the chain are loaded): depth 1..12, three file shapes
+        {
+            const std::string inc = g_outdir + "/tmp/inc";
+            fs::create_directories(inc);
+            int di = 0;
+            for (int depth : { 1, 2, 3, 4, 5, 8, 9, 12 }) {
+                for (int shape = 0; shape < 3; ++shape) {
+                    // three-character file names: an intermediate file of shape 0 is 14 bytes long
+                    std::string tag = std::string(1, (char) ('a' + shape)) + std::string(1, (char) ('A' + di));
+                    auto nm = [&](int k) { return tag + std::string(1, (char) ('a' + k)); };
+                    for (int k = 0; k <= depth; ++k) {
+                        std::string body = shape == 0 ? "INCLUDE\n" + nm(k + 1) + " /\n"
+                                         : shape == 1 ? "INCLUDE\n" + nm(k + 1) + " /\nOIL\n"
+                                         : "-- a comment line long enough to leave the small-string buffer\nINCLUDE\n '" + nm(k + 1) + "' /\nWATER\n";
+                        if (k == depth) body = "OIL\n";
+                        if (k == 0) body = "RUNSPEC\n" + body + "DIMENS\n 2 2 1 /\nGRID\nSCHEDULE\n";
+                        vh::spit(inc + "/" + nm(k), body);
+                    }
+                    fixedDecks.push_back("@PARSEFILE " + inc + "/" + nm(0));
+                }
+                ++di;
+            }
+        }
         g_stats["deck.fixed_probes"] = (long) fixedDecks.size();
         int n = (tier == "thorough" ? 6000 : 500) + (int) fixedDecks.size();
         for (int i = 0; i < n && !corpus.empty(); ++i) {
